@@ -844,6 +844,10 @@ func (e *Exec) applyContract(ct *Contract, fn *types.Func, sig *types.Signature,
 		e.assert(c.st, name, "precondition", phi, rq.Text, e.prog.pos(call), e.modelVars(c.st, c.fr))
 	}
 	// frame
+	if ct.Kind == "func" && !ct.HasMod {
+		e.note("callee %s has a contract without a modifies clause: heap havocked at the call", cname)
+		e.havocAll(c.st)
+	}
 	for _, m := range ct.Modifies {
 		e.havocTarget(m, c.st, cfr, bound)
 	}
@@ -873,13 +877,21 @@ func (e *Exec) applyContract(ct *Contract, fn *types.Func, sig *types.Signature,
 			e.assume(c.st, fmt.Sprintf("(>= %s 0)", e.seqLen(v)))
 		}
 	}
+	savedSnap := e.lockSnap
 	for _, en := range ct.Ensures {
 		if en.Mode == "seq" && e.mode == "conc" {
 			continue
 		}
+		if strings.Contains(en.Text, "atlock(") {
+			if e.mode == "conc" {
+				continue // the callee's acquire-time state is unknown to the caller under interference
+			}
+			e.lockSnap = pre
+		}
 		sc := &Ctx{st: c.st, fr: cfr, spec: true, bound: b2, old: pre}
 		e.assume(c.st, e.evalCond(en.Expr, sc))
 	}
+	e.lockSnap = savedSnap
 	return out
 }
 
@@ -1023,6 +1035,30 @@ func (e *Exec) specCall(call *ast.CallExpr, c *Ctx) Term {
 			}
 		case "now":
 			return e.now(c.st)
+		case "atlock":
+			if e.lockSnap == nil {
+				e.errorf("%s: atlock() but no lock was acquired", e.curPos)
+				return e.eval(call.Args[0], c)
+			}
+			c2 := *c
+			c2.st = e.lockSnap
+			return e.eval(call.Args[0], &c2)
+		case "floormul":
+			a := e.eval(call.Args[0], c)
+			b := e.eval(call.Args[1], c)
+			return Term{e.floorMul(a.S, b.S), a.T}
+		case "allocated":
+			v := e.eval(call.Args[0], c)
+			al := e.get(c.st, "$alloc", &Type{K: KGMap, Key: tInt, Elem: tBool})
+			return Term{fmt.Sprintf("(select %s %s)", al.S, v.S), tBool}
+		case "allocated_at_entry":
+			v := e.eval(call.Args[0], c)
+			st0 := c.old
+			if st0 == nil {
+				st0 = c.st
+			}
+			al := e.get(st0, "$alloc", &Type{K: KGMap, Key: tInt, Elem: tBool})
+			return Term{fmt.Sprintf("(select %s %s)", al.S, v.S), tBool}
 		case "held":
 			// held(x.mutex)
 			if se, ok := call.Args[0].(*ast.SelectorExpr); ok {
